@@ -83,6 +83,7 @@ pub fn constant_sources(seed: u64, thorough: bool) -> Vec<String> {
 pub fn exec(case: &str) -> String {
   let f: Vec<&str> = case.split('\t').collect();
   let src = String::from_utf8(crate::c07::unhex(f[2])).unwrap();
+  if f[0] == "plan" { return plan_obs(&src); }
   run(&src)
 }
 
@@ -210,6 +211,199 @@ pub fn generate(seed: u64, thorough: bool, sink: &mut Sink) -> Vec<String> {
   for s in ["~a := 1\nb := 2\nc := a + b\na += b", "~x := 5\n1 + x\nx += 2", "~a := [1 2 3]\nb := [4 5 6]\nc := a + b\nd := a * b\na += b", "~a := 2\nb := a * a\nc := b - a\na *= c\nd := a + b"] { seqs.push(s.to_string()); }
   push("statement-sequences", seqs, sink);
   push("last-statement-bare", ["~a := 1\nb := a + a\n5", "~a := 1\nb := a + a\na", "~a := 9\n~b := a + a\n[1 2 3]", "a := 3 + 8\n~b := 3\nb -= b\na", "~a := [6 2 5]\nb := a + a\na"].iter().map(|s| s.to_string()).collect(), sink);
+  // the compiler itself (class `plan`): the plan the interpreter built, read from the step texts, against the instruction
+  // stream compiled from it — every statement sequence, and a sample of every other class
+  let every = if std::env::var("MVH_PLAN_ALL").is_ok() { 1 } else if thorough { 4 } else { 6 };
+  let mut plans: Vec<String> = vec![];
+  let mut seen: std::collections::HashMap<String, usize> = std::collections::HashMap::new();
+  for c in out.iter() {
+    let f: Vec<&str> = c.split('\t').collect();
+    let k = seen.entry(f[1].to_string()).or_insert(0); *k += 1;
+    let whole = f[1] == "statement-sequences" || f[1] == "last-statement-bare" || f[1] == "literals-and-calls" || f[1] == "strings-names-arity";
+    if whole || (*k - 1) % every == 0 {
+      sink.hit(&format!("plan:{}", f[1])); plans.push(format!("plan\t{}\t{}", f[1], f[2]));
+      if f[1] == "statement-sequences" && *k <= 2 { sink.sample(c.clone()); sink.sample(plans[plans.len() - 1].clone()); }
+    }
+  }
+  out.extend(plans);
   out
 }
 
+
+// ---- the plan and what the compiler made of it (case class `plan`) ----
+
+/// the top-level fields of the `{:#?}` text of a struct: its name, then (field, value text) in declaration order
+fn debug_fields(text: &str) -> Option<(String, Vec<(String, String)>)> {
+  let mut lines = text.lines();
+  let head = lines.next()?;
+  let name = head.strip_suffix(" {")?.to_string();
+  if name.is_empty() || !name.chars().all(|c| c.is_ascii_alphanumeric() || c == '_') { return None; }
+  let mut fields: Vec<(String, String)> = vec![];
+  let mut closed = false;
+  for l in lines {
+    if closed { return None; }
+    if l == "}" { closed = true; continue; }
+    let body = l.strip_prefix("    ")?;
+    let is_field = body.chars().next().map(|c| c.is_ascii_alphabetic() || c == '_').unwrap_or(false)
+      && body.find(": ").map(|k| body[..k].chars().all(|c| c.is_ascii_alphanumeric() || c == '_')).unwrap_or(false);
+    if is_field { let k = body.find(": ").unwrap(); fields.push((body[..k].to_string(), body[k + 2..].to_string())); }
+    else { let last = fields.last_mut()?; last.1.push('\n'); last.1.push_str(body); }
+  }
+  if closed { Some((name, fields)) } else { None }
+}
+
+/// the address `Ref`'s Debug prints at the start of `v` (`@0x<16 hex digits>: …`)
+fn ref_addr(v: &str) -> Option<u64> { let h = v.strip_prefix("@0x")?; if h.len() < 17 || &h[16..17] != ":" { return None; } u64::from_str_radix(&h[..16], 16).ok() }
+
+fn first_addr(v: &str) -> Option<u64> { let k = v.find("@0x")?; ref_addr(&v[k..]) }
+
+enum Cells { One(u64), Tuple(Vec<u64>), Many(Vec<u64>), None }
+
+/// the elements of a `[ … ]` or `( … )` value, each reduced to the first address it prints
+fn seq_addrs(v: &str) -> Option<Vec<u64>> {
+  if v == "[]" || v == "()" { return Some(vec![]); }
+  let mut out = vec![]; let mut cur: Option<String> = None;
+  for l in v.lines().skip(1) {
+    if l == "]," || l == "]" || l == ")," || l == ")" { break; }
+    let b = l.strip_prefix("    ")?;
+    if !b.starts_with(' ') && !b.starts_with(')') && !b.starts_with(']') && !b.starts_with('}') { if let Some(c) = cur.take() { out.push(first_addr(&c)?); } cur = Some(b.to_string()); }
+    else if let Some(c) = cur.as_mut() { c.push('\n'); c.push_str(b); }
+  }
+  if let Some(c) = cur.take() { out.push(first_addr(&c)?); }
+  Some(out)
+}
+
+/// the cell(s) a field holds: a `Ref` is its address; a `Value` or `Matrix` wrapping a `Ref` (`F64(@0x…)`) is the address
+/// of that `Ref` (`Value::addr`, `Matrix::addr`); a tuple or a `Vec` of either is the list; a field that prints no address
+/// (a number, a kind, a marker) is no cell; any other text that prints an address is not understood (`None`)
+fn cells_of(v: &str) -> Option<Cells> {
+  if let Some(a) = ref_addr(v) { return Some(Cells::One(a)); }
+  if !v.contains("@0x") { return Some(if v.starts_with('[') { Cells::Many(vec![]) } else { Cells::None }); }
+  if v.starts_with('[') { return seq_addrs(v).map(Cells::Many); }
+  if v.starts_with('(') { return seq_addrs(v).map(Cells::Tuple); }
+  let wrapper = v.chars().next().map(|c| c.is_ascii_uppercase()).unwrap_or(false) && v.contains('(');
+  if wrapper { return first_addr(v).map(Cells::One); }
+  None
+}
+
+/// Structs whose `compile` does not hand its cells to the `compile_*op!` macro in the order "output, then the other
+/// cell-valued fields as declared" — read from the source, one line each: (struct, class, fields in the order compiled).
+///  * comprehensions and the matrix-to-set conversion compile their output cell only (`compile_nullop!(…, self.out, …)`):
+///    src/interpreter/src/expressions.rs:261-271 and 349-359, stdlib/convert/mat_to_mat.rs;
+///  * the indexed assignments generated by `impl_assign_fxn_s!` and `impl_set_all_fxn_s!` pass `sink, ixes, source`
+///    (src/interpreter/src/stdlib/assign/matrix.rs:102 and :196) although they declare `source, ixes, sink` like the others,
+///    which pass `sink, source, ixes`.
+const COMPILED_AS: &[(&str, &str, &[&str])] = &[
+  ("ValueSetComprehension", "0", &["out"]),
+  ("ValueMatrixComprehension", "0", &["out"]),
+  ("ConvertMatToSet", "0", &["out"]),
+  ("Assign1DS", "2", &["sink", "ixes", "source"]),
+  ("Assign1DB", "2", &["sink", "ixes", "source"]),
+  ("Assign2DASS", "2", &["sink", "ixes", "source"]),
+  ("Assign2DSAS", "2", &["sink", "ixes", "source"]),
+  ("Assign1DRS", "2", &["sink", "ixes", "source"]),
+  ("Assign1DRB", "2", &["sink", "ixes", "source"]),
+  ("Set2DARS", "2", &["sink", "ixes", "source"]),
+  ("Set2DARB", "2", &["sink", "ixes", "source"]),
+  ("Set2DRAS", "2", &["sink", "ixes", "source"]),
+  ("Set2DRAB", "2", &["sink", "ixes", "source"]),
+];
+
+/// one plan step read from `MechFunction::to_string()`: (struct name, arity class, out address, argument addresses, every
+/// address in the order printed).  The output cell is the field named `out`, else `var` (variable definitions), else `sink`
+/// (assignments); the arguments are the other cell-valued fields in declaration order (a tuple field counts as its
+/// elements); a struct whose arguments are one `Vec` field is variadic.  `COMPILED_AS` lists the structs read otherwise.
+fn read_step(text: &str) -> Result<(String, String, u64, Vec<u64>, Vec<u64>), String> {
+  let (name, fields) = debug_fields(text).ok_or_else(|| format!("text:{}", text.lines().next().unwrap_or("").chars().take(24).filter(|c| c.is_ascii_alphanumeric()).collect::<String>()))?;
+  let mut cells: Vec<(String, Cells)> = vec![]; let mut printed: Vec<u64> = vec![];
+  for (f, v) in fields.iter() {
+    let c = cells_of(v).ok_or_else(|| format!("field:{}.{}", name, f))?;
+    match &c { Cells::One(a) => printed.push(*a), Cells::Tuple(v) | Cells::Many(v) => printed.extend(v.iter().copied()), Cells::None => {} }
+    cells.push((f.clone(), c));
+  }
+  if let Some((_, cls, order)) = COMPILED_AS.iter().find(|e| e.0 == name) {
+    let mut regs: Vec<u64> = vec![];
+    for f in order.iter() {
+      match cells.iter().find(|c| c.0 == *f).map(|c| &c.1) { Some(Cells::One(a)) => regs.push(*a), Some(Cells::Tuple(v)) => regs.extend(v.iter().copied()), _ => return Err(format!("listed-field:{}.{}", name, f)) }
+    }
+    if regs.is_empty() { return Err(format!("no-out:{}", name)); }
+    return Ok((name, cls.to_string(), regs[0], regs[1..].to_vec(), printed));
+  }
+  let out_name = ["out", "var", "sink"].iter().find(|n| cells.iter().any(|f| f.0 == **n)).ok_or_else(|| format!("no-out:{}", name))?;
+  let mut out = None; let mut args: Vec<u64> = vec![]; let mut lists = 0; let mut singles = 0;
+  for (f, c) in cells.iter() {
+    match c {
+      Cells::One(a) => if f == out_name { out = Some(*a); } else { args.push(*a); singles += 1; },
+      Cells::Tuple(v) => { if f == out_name { return Err(format!("out-is-list:{}", name)); } args.extend(v.iter().copied()); singles += v.len(); },
+      Cells::Many(v) => { if f == out_name { return Err(format!("out-is-list:{}", name)); } args.extend(v.iter().copied()); lists += 1; },
+      Cells::None => if f == out_name { return Err(format!("out-not-a-cell:{}", name)); },
+    }
+  }
+  let out = out.ok_or_else(|| format!("no-out:{}", name))?;
+  let cls = if lists == 1 && singles == 0 { "v".to_string() } else if lists == 0 && args.len() <= 4 { args.len().to_string() } else { return Err(format!("mixed-args:{}", name)); };
+  Ok((name, cls, out, args, printed))
+}
+
+/// `S=<step>;<step>…|R=<reg_count>,<const_count>|I=<instr>,<instr>…` — the plan as read from the step texts (addresses
+/// numbered in the order the texts print them), and the instruction stream the real compiler made of it; `skip:<why>` where a
+/// step's cells cannot be read, the interpreter does not evaluate the program or there is nothing to compile
+pub fn plan_obs(src: &str) -> String {
+  let tree = match parse_code(src) { Ok(t) => t, Err(_) => return "skip:parse".into() };
+  let mut a = Interpreter::new(0);
+  match std::panic::catch_unwind(std::panic::AssertUnwindSafe(|| a.interpret(&tree))) { Ok(Ok(_)) => {}, _ => return "skip:interpret".into() };
+  let texts: Vec<String> = { let plan = a.plan(); let plan = plan.borrow(); plan.iter().map(|s| s.to_string()).collect() };
+  if texts.is_empty() { return "skip:empty-plan".into(); }
+  let mut names: std::collections::HashMap<u64, usize> = std::collections::HashMap::new();
+  let mut steps: Vec<String> = vec![];
+  for t in texts.iter() {
+    let (_, cls, out, args, printed) = match read_step(t) { Ok(s) => s, Err(why) => return format!("skip:{}", why) };
+    // addresses are numbered in the order the texts print them (declaration order of the fields, not the order of compilation)
+    let mut num = |x: u64| { let n = names.len(); *names.entry(x).or_insert(n) };
+    for x in printed { num(x); }
+    let o = num(out);
+    steps.push(format!("{}:{}{}", cls, o, args.iter().map(|x| format!(":{}", num(*x))).collect::<String>()));
+  }
+  let bytes = match std::panic::catch_unwind(std::panic::AssertUnwindSafe(|| a.compile())) { Ok(Ok(b)) => b, Ok(Err(_)) => return "skip:compile-error".into(), Err(_) => return "skip:compile-panic".into() };
+  let prog = match std::panic::catch_unwind(std::panic::AssertUnwindSafe(|| ParsedProgram::from_bytes(&bytes))) { Ok(Ok(p)) => p, _ => return "skip:load".into() };
+  let instrs: Vec<String> = prog.instrs.iter().map(|i| match i {
+    DecodedInstr::ConstLoad { dst, const_id } => format!("cl:{}:{}", dst, const_id),
+    DecodedInstr::NullOp { fxn_id, dst } => format!("op:0:{:x}:{}", fxn_id, dst),
+    DecodedInstr::UnOp { fxn_id, dst, src } => format!("op:1:{:x}:{}:{}", fxn_id, dst, src),
+    DecodedInstr::BinOp { fxn_id, dst, lhs, rhs } => format!("op:2:{:x}:{}:{}:{}", fxn_id, dst, lhs, rhs),
+    DecodedInstr::TernOp { fxn_id, dst, a, b, c } => format!("op:3:{:x}:{}:{}:{}:{}", fxn_id, dst, a, b, c),
+    DecodedInstr::QuadOp { fxn_id, dst, a, b, c, d } => format!("op:4:{:x}:{}:{}:{}:{}:{}", fxn_id, dst, a, b, c, d),
+    DecodedInstr::VarArg { fxn_id, dst, args } => format!("op:v:{:x}:{}{}", fxn_id, dst, args.iter().map(|x| format!(":{}", x)).collect::<String>()),
+    DecodedInstr::Ret { src } => format!("ret:{}", src),
+    DecodedInstr::Unknown { opcode, .. } => format!("unk:{}", opcode),
+  }).collect();
+  format!("S={}|R={},{}|I={}", steps.join(";"), prog.header.reg_count, prog.const_entries.len(), instrs.join(","))
+}
+
+/// statistics of the `plan` class, from the observations: how many plans were compared and why the others were not
+pub fn tally(case: &str, obs: &str, sink: &mut Sink) {
+  if !case.starts_with("plan\t") { return; }
+  if let Some(why) = obs.strip_prefix("skip:") { sink.hit(&format!("plan-skipped:{}", why)); } else if obs.starts_with("S=") { sink.hit("plan-compared"); sink.hit(&format!("plan-steps:{}", obs.split('|').next().unwrap_or("").split(';').count().min(20)));
+    // which instruction forms the compared plans contain, and how often a step re-uses a cell that already has a register
+    let mut seen: std::collections::HashSet<&str> = std::collections::HashSet::new();
+    for st in obs.split('|').next().unwrap_or("").trim_start_matches("S=").split(';') {
+      let f: Vec<&str> = st.split(':').collect();
+      sink.hit(&format!("plan-step-class:{}", f[0]));
+      let mut reused = false; for a in f[1..].iter() { if !seen.insert(*a) { reused = true; } }
+      if reused { sink.hit("plan-steps-reusing-a-cell"); }
+    } }
+}
+
+/// probing aid: the raw text of every plan step and the instruction stream compiled from the plan
+pub fn plan_probe(src: &str) -> String {
+  let tree = match parse_code(src) { Ok(t) => t, Err(e) => return format!("parse: {}", e) };
+  let mut a = Interpreter::new(0);
+  match std::panic::catch_unwind(std::panic::AssertUnwindSafe(|| a.interpret(&tree))) { Ok(Ok(_)) => {}, _ => return "interpret failed".into() };
+  let mut out = String::new();
+  { let plan = a.plan(); let plan = plan.borrow(); for (i, s) in plan.iter().enumerate() { out.push_str(&format!("--- step {}\n{}\n", i, s.to_string())); } }
+  let bytes = match std::panic::catch_unwind(std::panic::AssertUnwindSafe(|| a.compile())) { Ok(Ok(b)) => b, _ => return out + "compile failed" };
+  let prog = match ParsedProgram::from_bytes(&bytes) { Ok(p) => p, Err(_) => return out + "load failed" };
+  out.push_str(&format!("OBS {}\n", plan_obs(src)));
+  out.push_str(&format!("regs={} consts={}\n", prog.header.reg_count, prog.const_entries.len()));
+  for i in prog.instrs.iter() { out.push_str(&format!("{:?}\n", i)); }
+  out
+}
